@@ -157,7 +157,8 @@ def run(report):
     })
     report.trust("CPython 3.12", "SymPy 1.14: solve/subs/diff/auto-evaluation inside the functions under contract are value "
                  "preserving (they are part of the real code that is executed)", "sympy.polys for the nf back end",
-                 "z3 / cvc5", "closure introspection of validate_input / validate_output wrappers "
+                 "z3 / cvc5", "SymPy rewrites without force used for normalisation: powdenest, expand_power_base, expand_log, "
+                 "powsimp; sympy.solve in the numeric check of the abs/ceiling exceptions", "closure introspection of validate_input / validate_output wrappers "
                  "(inspect.getclosurevars over __wrapped__)")
     report.assume(
         "arguments are real numbers (fresh real symbols carrying the sign/integer assumptions of the guarding law symbol)",
@@ -170,7 +171,18 @@ def run(report):
         "(proved for every positive value of the constant)",
         "association of a parameter the decorators leave without a law symbol: parameter `p_` stands for the module's law "
         "symbol named `p` (dimension must agree when the guard gives one); result without a symbol in validate_output: "
-        "the only law symbol not associated with a parameter",
+        "the only law symbol not associated with a parameter, and only when the function is called calculate_<that "
+        "attribute name>; anything else is out_of_reach (coverage.sigma_source counts the functions per rule)",
+        "during generic execution sympy.Expr carries two read-only attributes, scale_factor -> self and dimension -> "
+        "dimensionless (a Quantity built from a symbolic SI value is that expression)",
+        "a path that raises ValueError / AssertionError, or whose result is not finite (division by zero), is the function "
+        "refusing that part of the domain; recorded paths with an unsatisfiable condition are discarded",
+        "a z3 countermodel that assigns values to uninterpreted terms (exp, log, symbolic powers) counts as a refutation "
+        "only when a failing input is reproduced on the real decorated function; otherwise the function is undecided "
+        "(allow-listed into the bounded class)",
+        "bounded stand-in: positive magnitudes only; points where the law's own sides move by more than the tolerance "
+        "under a 1e-13 relative change of the arguments, or where the published formula evaluated in float64 is itself "
+        "off by more than the tolerance (catastrophic cancellation), are skipped as ill-conditioned",
         "functions with sequence parameters: proved for all values at lengths 1..3 only (reported under bounded as well "
         "when a numeric stand-in runs)",
         "degenerate structure follows the generic summary (SymPy auto-evaluation is value preserving)",
